@@ -1,6 +1,7 @@
 package props
 
 import (
+	"bytes"
 	"context"
 	"fmt"
 	"math"
@@ -33,11 +34,12 @@ type CrashCase struct {
 
 var hostileToks = []string{"0x7fffffffffffffff", "99999999999999999999", "-9223372036854775808", "0xffffffffffffffff", "{{.", "{{.x}}", "}}", "$", "$$", "..", ".loop", "a$b", "$x", "x.", "@f", "?x", "[", "]", "(", ")", ",", ":", "+", "-", "*", "/", "%", "\"", "'", "\"unterminated", "0x", "0", "1", "256", "-1", "EQU", "GLOBAL", "EXTERN", "BYTE", "WORD", "DWORD", "SHORT", "NEAR", "FAR", "PTR", "ORG", "RESB", "ALIGNB", "TIMES", "END", "DB", "DW", "DD", "INT", "MOV", "JMP", "CALL", "LGDT", "PUSH", "IMUL", "IN", "OUT", "AX", "EAX", "AL", "CR0", "DS", "ES:", "[BX]", "[EAX*9]", "[ESP*2]", "[BX+BP]", "[BITS", "32]", "[FORMAT", "\"WCOFF\"]", "[FILE", "label:", "x:", "\t", ";", "#"}
 
-var outOfRangeReserve = regexp.MustCompile(`(?i)\b(RESB|RESW|RESD|ALIGNB|TIMES)\b[^\n]*?(0x[0-9a-f]{7,}|[0-9]{8,})`)
+// (no word boundary after the keyword: gosk reads "RESB2000000000" as RESB 2000000000)
+var outOfRangeReserve = regexp.MustCompile(`(?i)(RESB|RESW|RESD|ALIGNB|TIMES)[^\n]*?(0x[0-9a-f]{7,}|[0-9]{8,})`)
 
 // a RESB whose only operand is one literal beyond 2^31-1: gosk must refuse it (the location counter
 // has 32 bits), so it costs nothing to run
-var plainHugeReserve = regexp.MustCompile(`(?i)^\s*(?:[A-Za-z_][A-Za-z0-9_]*:)?\s*RESB\s+(0x[0-9a-f]+|[0-9]+)\s*(?:[;#].*)?$`)
+var plainHugeReserve = regexp.MustCompile(`(?i)^\s*(?:[A-Za-z_][A-Za-z0-9_]*:)?\s*RESB\s*(0x[0-9a-f]+|[0-9]+)\s*(?:[;#].*)?$`)
 
 // asksForHugeOutput: some line reserves (or may reserve) more than 16 MiB of output that gosk would really produce.
 func asksForHugeOutput(src string) bool {
@@ -75,12 +77,19 @@ func recordLast(src string) {
 	os.WriteFile(c13LastPath, []byte(src), 0o644)
 }
 
-// confirmWithBinary re-runs src through the real gosk binary: crash = exit
-// status 2 with a Go panic/fatal message, or killed by a signal; hang = no
-// exit within 60 s.
+// confirmWithBinary re-runs src through the real gosk binary: crash = a Go panic/fatal message or death by a
+// signal. A hang is judged by the CPU time the binary burns, never by the wall clock (a loaded machine slows
+// everything down): hang = more than cpuLimit seconds of CPU, where cpuLimit = 60 s + 1 s per 2 KB of input (a
+// 250 KB program costs about 25 s). If the wall-clock budget (4 x cpuLimit) runs out before that much CPU was
+// used, the case is inconclusive.
 func confirmWithBinary(src string) (crashed bool, how string) {
+	crashed, how, _ = confirmWithBinary3(src)
+	return
+}
+
+func confirmWithBinary3(src string) (crashed bool, how string, inconclusive bool) {
 	if asm.GoskPath() == "" {
-		return true, "binary not available for confirmation; in-process result stands"
+		return true, "binary not available for confirmation; in-process result stands", false
 	}
 	dir := asm.TmpDir()
 	in := filepath.Join(dir, "c13-confirm.nas")
@@ -88,31 +97,66 @@ func confirmWithBinary(src string) (crashed bool, how string) {
 	os.WriteFile(in, []byte(src), 0o644)
 	defer os.Remove(in)
 	defer os.Remove(out)
-	r := asm.RunCLI(dir, in, out)
-	if r.Err != nil {
-		return true, "binary: " + r.Err.Error()
+	cpuLimit := 60 + float64(len(src))/2048
+	ctx, cancel := context.WithTimeout(context.Background(), time.Duration(4*cpuLimit)*time.Second)
+	defer cancel()
+	cmd := exec.CommandContext(ctx, asm.GoskPath(), in, out)
+	cmd.Dir = dir
+	var buf bytes.Buffer
+	cmd.Stdout, cmd.Stderr = &buf, &buf
+	err := cmd.Start()
+	if err != nil {
+		return false, "binary did not start: " + err.Error(), true
 	}
-	txt := r.Stderr + r.Stdout
-	if strings.Contains(txt, "panic:") || strings.Contains(txt, "fatal error:") || strings.Contains(txt, "goroutine ") {
+	werr := cmd.Wait()
+	cpu := 0.0
+	if cmd.ProcessState != nil {
+		cpu = (cmd.ProcessState.UserTime() + cmd.ProcessState.SystemTime()).Seconds()
+	}
+	if ctx.Err() != nil {
+		if cpu >= cpuLimit {
+			return true, fmt.Sprintf("binary: still running after %.0f s of CPU time (limit for %d bytes of input: %.0f s)", cpu, len(src), cpuLimit), false
+		}
+		return false, fmt.Sprintf("binary: wall-clock budget used up after only %.0f s of CPU time (machine busy)", cpu), true
+	}
+	txt := buf.String()
+	exit := 0
+	if ee, ok := werr.(*exec.ExitError); ok {
+		exit = ee.ExitCode()
+	}
+	if strings.Contains(txt, "panic:") || strings.Contains(txt, "fatal error:") || strings.Contains(txt, "goroutine ") || exit == -1 {
 		first := txt
 		if i := strings.Index(txt, "panic:"); i >= 0 {
 			first = txt[i:]
 		} else if i := strings.Index(txt, "fatal error:"); i >= 0 {
 			first = txt[i:]
 		}
-		return true, fmt.Sprintf("binary exits %d: %s", r.Exit, strings.SplitN(first, "\n", 2)[0])
+		return true, fmt.Sprintf("binary exits %d: %s", exit, strings.SplitN(first, "\n", 2)[0]), false
 	}
-	return false, fmt.Sprintf("binary exits %d without a crash", r.Exit)
+	return false, fmt.Sprintf("binary exits %d without a crash", exit), false
 }
 
 var hung string
 
-var identWithDotOrDollar = regexp.MustCompile(`[A-Za-z0-9_][.$]|[.$][A-Za-z0-9_.$]|(^|[\s,\[:])\.+($|[\s,\]:])|[@?~!^&|<>=\x60\\]`)
+var identWithDollar = regexp.MustCompile(`[A-Za-z0-9_.$]\$|\$[A-Za-z0-9_.$]`)
+var quotedOrSection = regexp.MustCompile(`"[^"\n]*"|\[SECTION \.text\]`)
 
-// safeForExec: the text cannot reach an os.Exit inside frontend.Exec (pass 2 runs operands that
-// contain "{{." through text/template; label names with '.' or '$' end up inside such operands).
+// safeForExec: the text cannot reach an os.Exit inside frontend.Exec. Pass 2 runs operands through
+// text/template ("{{.name}}" placeholders for symbols), and a name that is not a plain identifier makes the
+// template fail to parse, which Exec answers with os.Exit. The predicate is deliberately blunt: outside
+// double-quoted strings and "[SECTION .text]" the text holds no '.', no character a template or an identifier
+// could choke on, and no '$' glued to a name. Everything else goes to the exit-free replica.
 func safeForExec(src string) bool {
-	return !strings.Contains(src, "{{") && !strings.Contains(src, "}}") && !identWithDotOrDollar.MatchString(src)
+	rest := quotedOrSection.ReplaceAllString(src, "")
+	for i := 0; i < len(rest); i++ {
+		if rest[i] >= 0x80 {
+			return false
+		}
+	}
+	if strings.ContainsAny(rest, ".@?~!^&|<>={}`\\\"'") {
+		return false
+	}
+	return !identWithDollar.MatchString(rest)
 }
 
 func panicSite(p string) string {
@@ -232,7 +276,8 @@ func checkC13(c CrashCase) Verdict {
 	start := time.Now()
 	// The real frontend.Exec is used whenever the text cannot reach one of its os.Exit calls (no
 	// template metacharacters, no '.'/'$' inside identifiers); otherwise the exit-free replica.
-	real := safeForExec(c.Src)
+	// raw fuzz inputs always take the replica: no predicate over arbitrary bytes is worth a dead fuzz worker
+	real := c.Kind != "fuzz" && safeForExec(c.Src)
 	if real {
 		st.Classes["via-frontend.Exec"]++
 	} else {
@@ -251,14 +296,24 @@ func checkC13(c CrashCase) Verdict {
 	case r = <-done:
 	case <-time.After(45 * time.Second):
 		// possible hang: confirm with the binary (60 s), the in-process goroutine is abandoned
-		crashed, how := confirmWithBinary(c.Src)
+		crashed, how, inconclusive := confirmWithBinary3(c.Src)
 		if crashed {
 			v.Fail = fmt.Sprintf("input of %d bytes does not terminate within 45 s in-process; %s\n--- input (first 600 bytes) ---\n%s", len(c.Src), how, head([]byte(c.Src), 600))
 			v.Sig = "C13|hang"
 			hung = v.Fail
 			return v
 		}
-		v.Skip = "slow in-process, fine in the binary (inconclusive)"
+		if inconclusive {
+			v.Skip = "slow in-process and the binary's wall-clock budget ran out before its CPU allowance (machine busy: inconclusive)"
+		} else {
+			v.Skip = "slow in-process, fine in the binary (inconclusive)"
+		}
+		// the abandoned goroutine may still be running: let it finish before the next case is timed
+		select {
+		case <-done:
+		case <-time.After(10 * time.Minute):
+			hung = fmt.Sprintf("input of %d bytes: the in-process run is still going after 10 more minutes although the binary finished (%s)", len(c.Src), how)
+		}
 		return v
 	}
 	_ = start
